@@ -101,6 +101,17 @@ func verifC10Normal(rcodeIdx, rrIdx, n int, alpha int) {
 	verifC10Check(rc + ";" + rr + ";" + verifString("v", n, alphabets[alpha]))
 }
 
+var verifAddrLiterals = []string{"1.2.3.4", "0.0.0.0", "::1", "::", "::ffff:1.2.3.4", "0:0:0:0:0:ffff:7f00:1", "2001:db8::1", "fe80::1%eth0", "1.2.3", "[::1]"}
+
+// verifC10Literal: NOERROR ; rr ; <address literal> and the short form, with the literal
+// parsed by the real netip (natively, the value is concrete).
+func verifC10Literal(rrIdx, lit int) {
+	rr := verifKeyword("rr", rrIdx)
+	verifReach("c10.literal")
+	verifC10Check("NOERROR;" + rr + ";" + verifAddrLiterals[lit])
+	verifC10Check(verifAddrLiterals[lit])
+}
+
 var verifKeywords map[string][]string
 
 // verifKeyword returns keyword i of the driver's list (rcode or rr names; natively from VERIF_KEYWORDS).
